@@ -135,6 +135,11 @@ class CQMap(Tensor):
     def __repr__(self):
         return super().__repr__().replace("Tensor", "CQMap")
 
+    def map(self, func):
+        """ Apply a function elementwise. """
+        return CQMap(
+            self.dom, self.cod, list(map(func, self.array.flatten())))
+
     def __add__(self, other):
         if other == 0:
             return self
